@@ -469,7 +469,8 @@ macro_rules! impl_nio_read_buf {
                 let start_time = $crate::common::now();
                 let mut left_time = $crate::syscall::recv_time_limit($fd);
                 let mut received = 0;
-                let mut r = -1;
+                // a zero-length request transfers nothing and is not an error
+                let mut r = if $len == 0 { 0 } else { -1 };
                 while received < $len && left_time > 0 {
                     r = self.inner.$syscall(
                         fn_ptr,
@@ -581,9 +582,11 @@ macro_rules! impl_nio_read_iovec {
                     while received < length && left_time > 0 {
                         // Assuming iov_len is 4, but only 1 is read, at this point we should continue trying to fill the current iovec
                         if 0 != offset {
+                            // always advance from the caller's original entry, the loop may
+                            // come back here several times for the same iovec
                             arg[0] = libc::iovec {
-                                iov_base: (arg[0].iov_base as usize + offset) as *mut std::ffi::c_void,
-                                iov_len: arg[0].iov_len - offset,
+                                iov_base: (iovec.iov_base as usize + offset) as *mut std::ffi::c_void,
+                                iov_len: iovec.iov_len - offset,
                             };
                         }
                         r = self.inner.$syscall(
@@ -610,6 +613,8 @@ macro_rules! impl_nio_read_iovec {
                                 break;
                             }
                             offset = received.saturating_sub(stage);
+                            // a partial transfer ends the call: report everything moved so far
+                            r = received.try_into().expect("received overflow");
                         }
                         let error_kind = std::io::Error::last_os_error().kind();
                         if error_kind == std::io::ErrorKind::WouldBlock {
@@ -635,6 +640,11 @@ macro_rules! impl_nio_read_iovec {
                             if blocking {
                                 $crate::syscall::set_blocking($fd);
                             }
+                            if r == -1 && received > 0 {
+                                // bytes were already moved: report them, not the late failure
+                                $crate::syscall::reset_errno();
+                                return received.try_into().expect("received overflow");
+                            }
                             return r;
                         }
                     }
@@ -645,6 +655,15 @@ macro_rules! impl_nio_read_iovec {
                 std::mem::forget(vec);
                 if blocking {
                     $crate::syscall::set_blocking($fd);
+                }
+                if received > 0 {
+                    // e.g. the time limit expired after some bytes were moved
+                    $crate::syscall::reset_errno();
+                    return received.try_into().expect("received overflow");
+                }
+                if length == 0 {
+                    // a zero-length request transfers nothing and is not an error
+                    return 0;
                 }
                 r
             }
@@ -694,7 +713,8 @@ macro_rules! impl_nio_write_buf {
                 let start_time = $crate::common::now();
                 let mut left_time = $crate::syscall::send_time_limit($fd);
                 let mut sent = 0;
-                let mut r = -1;
+                // a zero-length request transfers nothing and is not an error
+                let mut r = if $len == 0 { 0 } else { -1 };
                 while sent < $len && left_time > 0 {
                     r = self.inner.$syscall(
                         fn_ptr,
@@ -805,9 +825,11 @@ macro_rules! impl_nio_write_iovec {
                     }
                     while sent < length && left_time > 0 {
                         if 0 != offset {
+                            // always advance from the caller's original entry, the loop may
+                            // come back here several times for the same iovec
                             arg[0] = libc::iovec {
-                                iov_base: (arg[0].iov_base as usize + offset) as *mut std::ffi::c_void,
-                                iov_len: arg[0].iov_len - offset,
+                                iov_base: (iovec.iov_base as usize + offset) as *mut std::ffi::c_void,
+                                iov_len: iovec.iov_len - offset,
                             };
                         }
                         r = self.inner.$syscall(
@@ -827,6 +849,8 @@ macro_rules! impl_nio_write_iovec {
                                 break;
                             }
                             offset = sent.saturating_sub(stage);
+                            // a partial transfer ends the call: report everything moved so far
+                            r = sent.try_into().expect("sent overflow");
                         }
                         let error_kind = std::io::Error::last_os_error().kind();
                         if error_kind == std::io::ErrorKind::WouldBlock {
@@ -852,6 +876,11 @@ macro_rules! impl_nio_write_iovec {
                             if blocking {
                                 $crate::syscall::set_blocking($fd);
                             }
+                            if r == -1 && sent > 0 {
+                                // bytes were already moved: report them, not the late failure
+                                $crate::syscall::reset_errno();
+                                return sent.try_into().expect("sent overflow");
+                            }
                             return r;
                         }
                     }
@@ -862,6 +891,15 @@ macro_rules! impl_nio_write_iovec {
                 std::mem::forget(vec);
                 if blocking {
                     $crate::syscall::set_blocking($fd);
+                }
+                if sent > 0 {
+                    // e.g. the time limit expired after some bytes were moved
+                    $crate::syscall::reset_errno();
+                    return sent.try_into().expect("sent overflow");
+                }
+                if length == 0 {
+                    // a zero-length request transfers nothing and is not an error
+                    return 0;
                 }
                 r
             }
